@@ -200,8 +200,15 @@ def run_for(ex, st):
     before = {}
     for nm in sorted(mods):
         if nm in ex.env:
-            before[nm] = ex.env[nm]
-            ex.env[nm] = havoc(ex, ex.env[nm], nm)
+            cur = ex.env[nm]
+            if isinstance(cur, SObj):
+                # a record keeps its identity (callers and postconditions see the same object)
+                from .calls import snapshot, adopt
+                before[nm] = snapshot(cur)
+                adopt(cur, havoc(ex, cur, nm))
+            else:
+                before[nm] = cur
+                ex.env[nm] = havoc(ex, cur, nm)
             ex.poisoned.discard(nm)
     i = fresh('i', vl.Int)
     ex.assume(z3.And(i >= 0, i <= n))
@@ -267,8 +274,15 @@ def run_while(ex, st):
     before = {}
     for nm in sorted(mods):
         if nm in ex.env:
-            before[nm] = ex.env[nm]
-            ex.env[nm] = havoc(ex, ex.env[nm], nm)
+            cur = ex.env[nm]
+            if isinstance(cur, SObj):
+                # a record keeps its identity (callers and postconditions see the same object)
+                from .calls import snapshot, adopt
+                before[nm] = snapshot(cur)
+                adopt(cur, havoc(ex, cur, nm))
+            else:
+                before[nm] = cur
+                ex.env[nm] = havoc(ex, cur, nm)
             ex.poisoned.discard(nm)
     for inv in invs:
         ex.assume(eval_spec(ex, inv))
